@@ -249,9 +249,13 @@ def run_check(prop_id, tier, seed):
 
     # ---- phase 1: TLC on every config of the tier (model level)
     jobs = []
+    cfg_flavours = {}
     for prim in prop["prims"]:
         info = PRIMS[prim]
         for c in info["tour_cfgs"][tier]:
+            if isinstance(c, dict):
+                cfg_flavours[c["cfg"]] = c["flavours"]
+                c = c["cfg"]
             jobs.append((prim, c, True))
         for c in info["model_cfgs"][tier]:
             jobs.append((prim, c, False))
@@ -302,8 +306,9 @@ def run_check(prop_id, tier, seed):
         def rp(fl):
             return fl, fih(["replay", "--prim", prim, "--flavour", fl, "--tours", tours,
                             "--outdir", os.path.join(wd, "rec-" + fl), "--record", "2"])
-        with cf.ThreadPoolExecutor(max_workers=len(info["flavours"])) as ex:
-            outs = list(ex.map(rp, info["flavours"]))
+        flavours = cfg_flavours.get(c, info["flavours"])
+        with cf.ThreadPoolExecutor(max_workers=len(flavours)) as ex:
+            outs = list(ex.map(rp, flavours))
         for fl, s in outs:
             ev["paths_replayed"] += s["paths"]
             ev["steps_replayed"] += s["steps"]
@@ -329,7 +334,7 @@ def run_check(prop_id, tier, seed):
                     for st in json.loads(line)["steps"]:
                         k = prim + "." + st[0]["op"]
                         ev["actions"][k] = ev["actions"].get(k, 0) + 1
-        log("replayed %s on %s: %d edges, %d paths, drift=%s" % (c, ",".join(info["flavours"]), hdr["edges"], hdr["paths"], not all_clean))
+        log("replayed %s on %s: %d edges, %d paths, drift=%s" % (c, ",".join(flavours), hdr["edges"], hdr["paths"], not all_clean))
 
     # ---- phase 3: random histories beyond the model bounds (code -> spec)
     for prim in prop["prims"]:
